@@ -1,10 +1,12 @@
 (** C13 -- Runtime faults stop the program with a located Pakhi error, never a panic.
-    PARTIAL for "never a panic": proved per fault kind below (each listed fault is an error value); the global theorem
-    "no reachable machine state panics" (invariant heap_wf /\ stacks_wf over every step) is not proved -- the faults
-    stream and the whole-program streams run every case under catch_unwind.  The command-line exit status is tied by
-    the cli stream only (process behaviour is not modelled). *)
-From Pakhi Require Import Base Float64 Syntax Tables Lexer Interp.
-From Pakhi.Proofs Require Import Output Faults FsOps ListOps.
+    "Never a panic" is the theorem C13_never_a_panic: for every source text the front end accepts, every amount of
+    fuel, every collection schedule and every world (file system, stdin), no step of the run is a [Panic] -- proved by
+    the machine invariant of WFOps.v (no dangling address, non-empty scope stack, jump targets inside the vector) and
+    the frame invariant of FrameInv.v (a call returns with at least the scopes it was entered with).  Native stack
+    exhaustion (unbounded recursion, printing a cyclic container) is [OutOfFuel] in the model, not a panic.  The
+    command-line exit status is tied by the cli stream only (process behaviour is not modelled). *)
+From Pakhi Require Import Base Float64 Syntax Tables Lexer Parser Interp.
+From Pakhi.Proofs Require Import Output Faults FsOps ListOps WF WFOps NoPanic ParseOk.
 Local Open Scope nat_scope.
 
 (* everything printed before the failing statement is preserved: the error value carries it, in order *)
@@ -73,3 +75,30 @@ Theorem C13_file_builtins_never_panic : forall code m op args, 10 <= op <= 16 ->
   match builtin_op code op args m with Panic _ => False | OutOfFuel => False | _ => True end.
 Proof. exact fs_ops_never_panic. Qed.
 Print Assumptions C13_file_builtins_never_panic.
+
+(* the global statement: whatever the front end accepts runs without a panic, under every collection schedule *)
+Theorem C13_never_a_panic : forall fs cwd main_path pfuel src code platform world fuel sched,
+  front fs cwd main_path pfuel src = Ok code ->
+  forall s, fst (run code fuel sched 0 (init_machine platform world)) <> Panic s.
+Proof.
+  intros fs cwd main_path pfuel src code platform world fuel sched H s.
+  destruct (front_output_ok fs cwd main_path pfuel src code H) as [Hok Hne].
+  apply run_no_panic; [exact Hok|]. apply mwf_init; assumption.
+Qed.
+Print Assumptions C13_never_a_panic.
+
+(* and so does every single statement and expression from any well-formed machine *)
+Theorem C13_statement_never_panics : forall code, code_ok code -> forall fuel m, mwf code m -> forall s, interp code fuel m <> Panic s.
+Proof. exact interp_no_panic. Qed.
+Print Assumptions C13_statement_never_panics.
+
+Theorem C13_expression_never_panics : forall code, code_ok code -> forall fuel e m, mwf code m -> expr_ok e = true ->
+  forall s, eval code fuel e m <> Panic s.
+Proof. exact eval_no_panic. Qed.
+Print Assumptions C13_expression_never_panics.
+
+(* the parser's output is what the invariant needs *)
+Theorem C13_parser_output_is_well_formed : forall fs cwd main_path pfuel src code,
+  front fs cwd main_path pfuel src = Ok code -> code_ok code /\ code <> [].
+Proof. exact front_output_ok. Qed.
+Print Assumptions C13_parser_output_is_well_formed.
